@@ -494,7 +494,12 @@ struct Prop : PropBase
     g.cur = &st;
     const std::string curPath = g.outdir + "/" + g.bin + "." + name + ".current.case";
     const std::string failPath = g.outdir + "/" + g.bin + "." + name + ".failing.case";
+    // the case that failed FIRST, before shrinking: if the code under test carries state from one case to the next (a
+    // poisoned thread-local, a global counter) every shrink candidate fails as well and the shrunk case means nothing;
+    // the driver falls back to this one when the shrunk case does not reproduce in a fresh process
+    const std::string firstFailPath = g.outdir + "/" + g.bin + "." + name + ".first_failing.case";
     unlink(failPath.c_str());
+    unlink(firstFailPath.c_str());
     g.cur_case_path = curPath;
     rc::detail::TestParams params;
     params.seed = seed;
@@ -536,6 +541,8 @@ struct Prop : PropBase
             }
           }
           if (!msg.empty()) {
+            if (!shrinking)
+              write_file(firstFailPath, txt + "# " + msg + "\n");
             shrinking = true;  // everything after the first failure is shrinking
             st.failed = true;
             st.failmsg = msg;
